@@ -17,7 +17,7 @@ from vlib.runner import BudgetExceeded, Check, FuzzClause, HypClause, Info, fail
 logging.disable(logging.CRITICAL)
 
 TAGS = [0, 1, 2, 6, 9, 10, 15, 16, 18, 22]
-ENTRIES = ["payload", "payload", "dlms", "hdlc", "p1"]
+ENTRIES = ["payload", "payload", "dlms", "hdlc", "p1", "p1raw"]
 ENTRIES_ALL = ["payload", "dlms", "hdlc", "p1"]
 
 
@@ -57,6 +57,12 @@ def make_call(ad, entry, payload):
             ro = dlde.DataReadout(b"/ABC5x\r\n" + payload + b"!\r\n")
         except ValueError:
             return None
+        return lambda: ad.decode_message(ro)
+    if entry == "p1raw":  # the bytes ARE the readout (identification line included, well-formed or not), as a caller may build it
+        try:
+            ro = dlde.DataReadout(payload)
+        except (ValueError, IndexError):
+            return None  # the constructor refuses it: nothing to give to decode_message
         return lambda: ad.decode_message(ro)
     raise ValueError(entry)
 
@@ -154,7 +160,7 @@ def _oracle(case) -> Info:
         nt = isinstance(res, dict) or _some_grammar_parses(payload)
         if nt:
             classes.append("mutant-still-parsed-by-a-grammar")
-    elif tag in ("nested", "digit-run"):
+    elif tag in ("nested", "digit-run", "regex-bait", "readout"):
         nt = True
     elif tag in ("ascii", "ascii-long"):
         nt = b"(" in payload or b")" in payload
@@ -250,8 +256,32 @@ def nested(depth: int, shape: int, leaf: bytes, obis_octets: bytes) -> bytes:
 
 @st.composite
 def case_st(draw):
-    tag = draw(st.sampled_from(["random", "truncation", "mutation", "mutation", "mutation", "ascii", "ascii", "ascii-long", "nested", "digit-run"]))
-    if tag == "random":
+    tag = draw(st.sampled_from(["random", "truncation", "mutation", "mutation", "mutation", "ascii", "ascii", "ascii-long", "nested", "digit-run", "readout", "regex-bait"]))
+    forced_entry = None
+    if tag == "readout":  # a whole readout with a well-formed or damaged identification line / end line, handed over as a DataReadout
+        ident = draw(st.sampled_from([b"/ADN9 6534", b"/AD9 6534", b"/adn9 6534", b"/ADNx 6534", b"/ADN9 65\xb4", b"/ADN9 " + b"6" * 40, b"/", b"/\\", b"/ABC5\\", b"/ABC", b"/\xff\xfe", b"/ABC5\\2\\", b"/ABC5x"]) | st.binary(max_size=12).map(lambda b: b"/" + b))
+        data = "".join(draw(st.lists(_ascii_tok, max_size=6))).encode("ascii")
+        end = draw(st.sampled_from([b"!", b"!\r\n", b"!0000\r\n", b"!zz\r\n", b"!\xff\r\n", b"!12345\r\n", b"! \r\n"]))
+        payload = draw(st.sampled_from([b"", b" ", b"\r\n"])) + ident + draw(st.sampled_from([b"\r\n", b"\n", b"\r\n\r\n", b""])) + data + end
+        forced_entry = "p1raw"
+    elif tag == "regex-bait":  # a long run of one token class followed by one stray character, in every position of a data line
+        tok = draw(st.sampled_from(["0", "9", "0.", "1.", "00", "a", "A", " ", "-", "1-", ":", "1:", ".", "*", "0*", "k", "(", ")", "()", "(0)", "\\", "\t"]))
+        n = draw(st.sampled_from([25, 28, 31, 40, 64, 200]))
+        run = (tok * n)[: max(n, 25)]
+        stray = draw(st.sampled_from(["W", "x", "!", " ", ".", "-", "(", ")", "*", "\x00", "#", "é".encode("latin-1").decode("latin-1"), ""]))
+        unit = draw(st.sampled_from(["kWh", "kW", "V", "A", "var", "varh", "kvar", "kvarh", "kVArh", "", "W"]))
+        where = draw(st.sampled_from(["value", "value", "address", "unit", "cde", "second-value", "line"]))
+        addr = draw(st.sampled_from(["1-0:1.8.0", "1-0:32.7.0", "1-0:31.7.0", "0-0:1.0.0", "1-0:1.7.0", "1.8.0", "0-0:96.1.0"]))
+        line = {
+            "value": f"{addr}({run}{stray}*{unit})",
+            "address": f"{run}{stray}(1*{unit})",
+            "unit": f"{addr}(1*{run}{stray})",
+            "cde": f"1-0:{run}{stray}(1*{unit})",
+            "second-value": f"{addr}(1)({run}{stray}*{unit})",
+            "line": f"{run}{stray}",
+        }[where]
+        payload = (draw(st.sampled_from(["", "\r\n", "0-0:1.0.0(230101120000W)\r\n"])) + line + draw(st.sampled_from(["\r\n", "", "\r\n1-0:1.7.0(1*kW)\r\n"]))).encode("latin-1")
+    elif tag == "random":
         payload = draw(st.binary(max_size=64) | st.binary(max_size=600))
     elif tag == "truncation":
         base = GENUINE[draw(st.sampled_from(NAMES))][0]
@@ -274,7 +304,7 @@ def case_st(draw):
     else:
         payload = "".join(draw(st.lists(_ascii_tok, min_size=1, max_size=8))).encode("ascii")
     prime = draw(st.integers(-1, 6))
-    entry = draw(st.sampled_from(ENTRIES))
+    entry = forced_entry or draw(st.sampled_from(ENTRIES))
     mem = tag in ("ascii", "ascii-long") or draw(st.integers(0, 19)) == 0
     return (tag, payload, prime, entry, mem)
 
@@ -309,7 +339,7 @@ def build() -> Check:
 
     def trunc_case(i, tier):
         name, k = trunc[i]
-        return ("truncation", GENUINE[name][0][:k], (i % 8) - 1, ENTRIES[i % len(ENTRIES)], False)
+        return ("truncation", GENUINE[name][0][:k], (i % 8) - 1, ENTRIES[:5][i % 5], False)
 
     return Check(
         pid="C15",
